@@ -21,9 +21,19 @@ Definition plan_tpl_layout : plan nat :=                (* page declares layout:
      (Access COMP false (stop_on_err
       (Access LAY false (fun _ =>                       (* Load(layout), error not looked at *)
        (Access LAY true (fun _ => Done))))))))))).      (* Vue.Render(layout) *)
-Inductive entry := VueRender | VueFragment | TplPlain | TplLayout.
+(* the page names no layout: Render asks the filesystem whether layouts/base.vuego exists (file LAY in this
+   scenario) and takes the layout path with it, or the plain path without *)
+Definition default_layout_path : plan nat :=
+  let a4 := Access LAY true (fun _ => Done) in
+  let a3 := Access LAY false (fun _ => a4) in
+  let a2 := Access COMP false (stop_on_err a3) in
+  let a1 := Access PAGE true (stop_on_err a2) in
+  Access PAGE false (fun _ => a1).
+Definition plan_tpl_default : plan nat :=
+  Access PAGE false (stop_on_err (Probe LAY (fun b => if b then default_layout_path else eval_page))).
+Inductive entry := VueRender | VueFragment | TplPlain | TplLayout | TplDefault.
 Definition plan_of (e : entry) : plan nat :=
-  match e with VueRender => plan_vue_render | VueFragment => plan_vue_fragment | TplPlain => plan_tpl_plain | TplLayout => plan_tpl_layout end.
+  match e with VueRender => plan_vue_render | VueFragment => plan_vue_fragment | TplPlain => plan_tpl_plain | TplLayout => plan_tpl_layout | TplDefault => plan_tpl_default end.
 
 Inductive hop := HEdit (f : nat) (cid : nat) (valid : bool) (t : nat) | HDelete (f : nat) | HRender (e : entry).
 Record case := { c_ops : list hop }.
